@@ -583,7 +583,31 @@ pub fn cli_case(seed: u64, names: &[String]) -> Option<(String, [String; 3])> {
         ctx.exclude.push(n.to_string());
     }
     let b = 3 + r.below(40) as usize;
-    let prog = vec![ctx.tree(&mut r, b, 3)];
+    let prog = if r.chance(1, 3) {
+        // a top-level sequence without the outer parentheses: the argument may start
+        // with a negative number, a float, a vector literal, a name or an instruction
+        let mut v = vec![match r.below(6) {
+            0 => ISpec::Int(-(1 + r.below(50) as i32)),
+            1 => ISpec::F((-(r.unit() as f32) - 0.5).to_bits()),
+            2 => ISpec::IV(vec![1, 2]),
+            3 => ISpec::N(r.pick(NAME_POOL).to_string()),
+            4 => ISpec::Int(r.below(50) as i32),
+            _ => ctx.instr(&mut r),
+        }];
+        for _ in 0..(1 + r.below(8)) {
+            v.push(if r.chance(1, 4) {
+                let bb = 2 + r.below(6) as usize;
+                ctx.tree(&mut r, bb, 2)
+            } else if r.chance(1, 2) {
+                ctx.instr(&mut r)
+            } else {
+                ctx.literal(&mut r)
+            });
+        }
+        v
+    } else {
+        vec![ctx.tree(&mut r, b, 3)]
+    };
     let text = render_program(&prog);
     if text.contains("BIN") || text.len() > 4000 {
         return None;
